@@ -223,6 +223,48 @@ class _:
                     raise Fail(f"innerprod:{a}:{b}", f"{case}: {got} vs {exp}")
 
 
+        # norms of structured tensors whose factors have special form: orthonormal columns, unit but not orthogonal
+        # columns (repeated / nearly parallel), tall and flat factors, dense and sparse cores
+        for kind in ("orthonormal", "unit-repeated", "unit-oblique", "flat"):
+            ranks = [min(2, d) if kind != "flat" else d + 1 for d in shp]
+            V = []
+            for d, k in zip(shp, ranks):
+                M = rs.randn(d, k)
+                if kind == "orthonormal":
+                    M = np.linalg.qr(rs.randn(d, d))[0][:, :k]
+                elif kind == "unit-repeated":
+                    M[:, -1] = M[:, 0]
+                    M = M / np.linalg.norm(M, axis=0)
+                elif kind == "unit-oblique":
+                    M = M / np.linalg.norm(M, axis=0)
+                V.append(M)
+            G = rs.randint(-2, 3, size=ranks).astype(float)
+            G[(0,) * N] = 2.0
+            for core_kind in ("dense", "sparse"):
+                core = ttb.tensor(G.copy()) if core_kind == "dense" else ttb.tensor(G.copy()).to_sptensor()
+                TT = ttb.ttensor(core, [v.copy() for v in V])
+                ref = G
+                for m in range(N):
+                    ref = np.moveaxis(np.tensordot(V[m], ref, axes=(1, m)), 0, m)
+                want = float(np.sqrt((ref ** 2).sum()))
+                if not _close(TT.norm(), want):
+                    raise Fail(f"norm:ttensor:{kind}-factors:{core_kind}-core", f"{case}: {TT.norm()} vs {want}")
+        for kind in ("repeated-component", "zero-weight", "unit-columns"):
+            Fk = [rs.randn(d, R) for d in shp]
+            wk = np.array([1.5, -2.0, 0.5])
+            if kind == "repeated-component":
+                for f in Fk:
+                    f[:, 2] = f[:, 0]
+            elif kind == "zero-weight":
+                wk[1] = 0.0
+            else:
+                Fk = [f / np.linalg.norm(f, axis=0) for f in Fk]
+            Kk = ttb.ktensor([f.copy() for f in Fk], wk.copy())
+            ref = np.einsum(",".join(LETTERS[m] + "z" for m in range(N)) + ",z->" + LETTERS[:N], *Fk, wk)
+            if not _close(Kk.norm(), float(np.sqrt((ref ** 2).sum()))):
+                raise Fail(f"norm:ktensor:{kind}", f"{case}: {Kk.norm()} vs {np.sqrt((ref ** 2).sum())}")
+
+
 @check("c02.contract_collapse_scale_ttt", ["C02"], [
     "pyttb.tensor.tensor.contract", "pyttb.sptensor.sptensor.contract", "pyttb.tensor.tensor.collapse",
     "pyttb.sptensor.sptensor.collapse", "pyttb.tensor.tensor.scale", "pyttb.sptensor.sptensor.scale",
@@ -346,3 +388,63 @@ class _:
             got = TT.reconstruct(idx, n)
             if not _close(_dense(ttb, got), np.take(TX, idx, axis=n)):
                 raise Fail("ttensor.reconstruct:samples", f"{case} n={n}")
+
+
+@check("c02.dense_dtypes", ["C02", "C10", "C18", "C09", "C14"], [
+    "pyttb.tensor.tensor.norm", "pyttb.tensor.tensor.innerprod", "pyttb.tensor.tensor.mttkrp", "pyttb.tensor.tensor.ttv",
+    "pyttb.tensor.tensor.ttm", "pyttb.tensor.tensor.collapse", "pyttb.tensor.tensor.nvecs", "pyttb.tenmat.tenmat.double"])
+class _:
+    """Dense tensors whose data are held in an element type other than float64 (small and large integers, unsigned,
+    booleans, float32): every product must be the one defined on the real values of the entries -- no wrap-around in
+    the element type, no truncation of the result to it."""
+
+    def cases(self, tier, rng):
+        for dt in ("int8", "uint8", "int16", "int32", "int64", "bool", "float32"):
+            for shp in ((3, 4), (4, 3, 5), (3, 2, 4, 3)):
+                yield dict(dtype=dt, shape=list(shp), seed=rng.randrange(10**6))
+
+    def classify(self, case):
+        return case["dtype"]
+
+    def run(self, case):
+        ttb = import_pyttb()
+        shp = tuple(case["shape"])
+        N = len(shp)
+        rs = np.random.RandomState(case["seed"])
+        dt = np.dtype(case["dtype"])
+        if dt.kind == "b":
+            raw = rs.rand(*shp) < 0.6
+        elif dt.kind == "f":
+            raw = (rs.randint(-40, 41, size=shp) / 8.0).astype(dt)     # exactly representable
+        elif dt.kind == "u":
+            raw = rs.randint(100, 256, size=shp).astype(dt)             # squares and sums exceed the type
+        else:
+            hi = min(120, np.iinfo(dt).max)
+            raw = rs.randint(-hi, hi + 1, size=shp).astype(dt)
+        X = raw.astype(float)
+        T = ttb.tensor(raw.copy())
+        tol = 1e-5 if dt == np.float32 else 1e-9
+
+        def close(a, b):
+            a, b = np.asarray(a, dtype=float), np.asarray(b, dtype=float)
+            return a.shape == b.shape and bool(np.all(np.abs(a - b) <= tol * max(1.0, float(np.max(np.abs(b))) if b.size else 1.0)))
+        if not close(T.norm(), np.sqrt((X ** 2).sum())):
+            raise Fail("norm", f"{case}: {T.norm()} vs {np.sqrt((X ** 2).sum())}")
+        if not close(T.innerprod(T), (X * X).sum()):
+            raise Fail("innerprod", f"{case}: {T.innerprod(T)} vs {(X * X).sum()}")
+        R = 2
+        F = [rs.randint(-7, 8, size=(d, R)) / 4.0 for d in shp]      # fractional factor values
+        for n in range(N):
+            others = [m for m in range(N) if m != n]
+            expr = LETTERS[:N] + "," + ",".join(LETTERS[m] + "z" for m in others) + "->" + LETTERS[n] + "z"
+            exp = np.einsum(expr, X, *[F[m] for m in others])
+            if not close(T.mttkrp([f.copy() for f in F], n), exp):
+                raise Fail("mttkrp", f"{case} n={n}")
+            v = rs.randint(-7, 8, size=shp[n]) / 4.0
+            if not close(_dense(ttb, T.ttv(v.copy(), n)), np.tensordot(X, v, axes=(n, 0))):
+                raise Fail("ttv", f"{case} n={n}")
+            M = rs.randint(-7, 8, size=(2, shp[n])) / 4.0
+            if not close(_dense(ttb, T.ttm(M.copy(), n)), np.moveaxis(np.tensordot(M, X, axes=(1, n)), 0, n)):
+                raise Fail("ttm", f"{case} n={n}")
+            if dt.kind != "b" and not close(_dense(ttb, T.collapse(np.array([n]))), X.sum(axis=n)):
+                raise Fail("collapse", f"{case} n={n}")
